@@ -506,12 +506,23 @@ func (r *trRun) frames() {
 		if err != nil {
 			return err
 		}
-		for _, b := range bs {
-			if _, err := s.Write(b); err != nil {
-				break
+		// a receiver that has stopped reading must not wedge the driver
+		done := make(chan error, 1)
+		go func() {
+			for _, b := range bs {
+				if _, err := s.Write(b); err != nil {
+					break
+				}
 			}
+			done <- s.Close()
+		}()
+		select {
+		case err := <-done:
+			return err
+		case <-time.After(2 * time.Second):
+			_ = s.Reset()
+			return fmt.Errorf("the receiver does not read the stream")
 		}
-		return s.Close()
 	}
 	varint := func(v uint64) []byte {
 		b := make([]byte, binary.MaxVarintLen64)
@@ -525,6 +536,7 @@ func (r *trRun) frames() {
 	}
 	cases := []fc{
 		{"empty", 0, nil, true}, {"one", 1, nil, true}, {"small", 300, nil, true},
+		{"64KiB", 64 * 1024, nil, true}, {"100KiB-a", 100 * 1024, nil, true}, {"100KiB-b", 100 * 1024, nil, true}, {"1MiB", 1 << 20, nil, true},
 		{"max+1", max + 1, nil, false}, {"max-1", max - 1, nil, true}, {"max", max, nil, true},
 		{"truncated", -1, [][]byte{varint(100), payloadOf(10)}, false},
 		{"length-only", -1, [][]byte{varint(50)}, false},
@@ -535,6 +547,11 @@ func (r *trRun) frames() {
 		{"no-bytes", -1, [][]byte{}, false},
 		{"trailing-garbage", -1, [][]byte{varint(3), []byte("abc"), payloadOf(40)}, true},
 	}
+	type keptFrame struct {
+		name      string
+		sent, got []byte
+	}
+	kept := []keptFrame{}
 	order := rng.Perm(len(cases))
 	for i, ci := range order {
 		c := cases[ci]
@@ -562,6 +579,9 @@ func (r *trRun) frames() {
 			} else {
 				if !bytes.Equal(p.Payload, sent) {
 					r.violate(i, "frame", fmt.Sprintf("frame %s delivered with different bytes (%d vs %d)", c.name, len(p.Payload), len(sent)), nil, nil)
+				} else {
+					// the application keeps what it was given (no copy) and looks at it again after the later frames
+					kept = append(kept, keptFrame{c.name, sent, p.Payload})
 				}
 				if p.Peer != sendHost.ID() {
 					r.violate(i, "frame", "frame attributed to the wrong peer", sendHost.ID().String(), p.Peer.String())
@@ -584,6 +604,48 @@ func (r *trRun) frames() {
 			r.violate(i, "frame", "a frame was delivered twice after case "+c.name, nil, nil)
 		}
 		r.res.Steps++
+	}
+	// many malformed frames in a row (whatever a handler holds while it reads a frame must be given back when the
+	// frame is bad): then a valid frame still goes through
+	for _, burst := range []struct {
+		name string
+		data [][]byte
+	}{{"truncated", [][]byte{varint(100), payloadOf(10)}}, {"length-only", [][]byte{varint(50)}}, {"max+1 announced", [][]byte{varint(uint64(max) + 1)}}} {
+		for k := 0; k < 24; k++ {
+			_ = raw(burst.data...)
+		}
+		mark("frames: valid frame after 24 frames of kind %s", burst.name)
+		probe := payloadOf(33)
+		r.res.Comparisons++
+		sctx, scancel := context.WithTimeout(ctx, 5*time.Second)
+		sent := make(chan error, 1)
+		go func() { sent <- sc.Send(sctx, recvHost.ID(), probe) }()
+		var serr error
+		select {
+		case serr = <-sent:
+		case <-time.After(6 * time.Second):
+			serr = fmt.Errorf("Send does not return")
+		}
+		scancel()
+		if serr != nil {
+			r.violate(len(cases), "frame", "a valid frame could not be sent after a series of "+burst.name+" frames: "+serr.Error(), nil, nil)
+			continue
+		}
+		got := false
+		deadline := time.Now().Add(5 * time.Second)
+		for time.Now().Before(deadline) && !got {
+			p, ok := next(time.Until(deadline))
+			got = ok && bytes.Equal(p.Payload, probe)
+		}
+		if !got {
+			r.violate(len(cases), "frame", "a valid frame sent after 24 "+burst.name+" frames was never delivered", nil, nil)
+		}
+	}
+	for _, k := range kept {
+		r.res.Comparisons++
+		if !bytes.Equal(k.got, k.sent) {
+			r.violate(len(cases), "frame", fmt.Sprintf("the payload of frame %s was delivered intact and changed while later frames were received", k.name), nil, nil)
+		}
 	}
 }
 
